@@ -701,12 +701,33 @@ def trace_cases(ctx, b, rng):
             c29.gbytes(rng, 0, 10, b"chunkedX") + b"\n3\nabcEND\n",
             b"chunked\n2\nab" + c29.gbytes(rng, 0, 6, b"END\nR0"),
         ])
+        if _lenient_int_line(data):
+            # ASSUMPTIONS: length lines that only Python's lenient int() accepts (sign, blanks,
+            # '_', '0x') are outside the model; such a line can arise from the random filler
+            ctx.count("trace:ck-bad:lenient-int-skipped")
+            return
         segs = c29.cut(rng, data)
         out, _, _ = c29.run_ck(segs, "0" * len(segs))
         case = dict(kind="trace-ck-bad", data=hexb(data), segs=[hexb(s) for s in segs])
         ctx.case(case, True)
         ctx.count("trace:ck-bad")
         b.add(case, "ck %s" % c29.hseg(segs), out)
+
+
+def _lenient_int_line(data):
+    """True if some line of `data` is accepted by int(line, 16) or int(line) without being a
+    plain string of (hex) digits."""
+    import re
+    for line in data.split(b"\n"):
+        if re.fullmatch(rb"[0-9a-fA-F]+", line):
+            continue
+        for base in (16, 10):
+            try:
+                int(line, base)
+            except ValueError:
+                continue
+            return True
+    return False
 
 
 def loop_cases(ctx, b, rng):
